@@ -550,11 +550,12 @@ spif_mbuff_prepend_from_ptr(spif_mbuff_t self, spif_byteptr_t other, spif_memidx
 spif_bool_t
 spif_mbuff_reverse(spif_mbuff_t self)
 {
-    spif_byteptr_t tmp = self->buff;
+    spif_byteptr_t tmp;
     int i, j;
 
     ASSERT_RVAL(!SPIF_MBUFF_ISNULL(self), FALSE);
     REQUIRE_RVAL(self->buff != (spif_byteptr_t) NULL, FALSE);
+    tmp = self->buff;
 
     for (j = 0, i = self->len - 1; i > j; i--, j++) {
         SWAP(tmp[j], tmp[i]);
